@@ -228,11 +228,16 @@ def finish(prop, tier, seed, results, t_start, explanation, trusted_base, checke
         else:
             held.append(r)
     # Each listed finding is printed when it is (still) reproduced by this run.
+    printed = set()
     for r, k in known_hit:
-        print("KNOWN-FINDING: property=%s %s" % (prop, k.get("what", k["key"])))
+        if k["key"] not in printed:
+            printed.add(k["key"])
+            n = sum(1 for _, k2 in known_hit if k2["key"] == k["key"])
+            print("KNOWN-FINDING: property=%s %s [key %s; reproduced by %d obligation(s) of this run, e.g. %s]" % (
+                prop, k.get("what", k["key"]), k["key"], n, r["id"]))
     for r in violations:
         print("VIOLATION property=%s replay=%s" % (prop, r.get("replay") or "-"))
-        print("  obligation %s: %s" % (r["id"], r.get("detail", "")))
+        print("  obligation %s [key %s]: %s" % (r["id"], r.get("finding_key") or r["id"], r.get("detail", "")))
     for r in inconclusive:
         print("INCONCLUSIVE %s: %s" % (r["id"], r.get("detail", "")))
 
